@@ -409,6 +409,11 @@ def run(ch: Checker) -> None:
     ch.import_rules('C07', {'C07.1': 'C01.11'}, 'relayed bytes still queued for the client are lost if the handler signals teardown with a non-empty buffer')
 
 
+def _cname(sym: Sym, c: ast.Call, i: int) -> Optional[str]:
+    """dotted name of the callee with local aliases of the receiver inlined (`upstream = self.upstream; upstream.recv()`)"""
+    return attr_chain(sym.value(c.func, i))
+
+
 def _relay(ch: Checker, fn: FuncInfo, src_call: str, sink_call: str, chain_hook: Optional[str] = None) -> None:
     prog = ch.prog
     g = cfg_of(fn, prog, exc_edges=False)
@@ -419,7 +424,7 @@ def _relay(ch: Checker, fn: FuncInfo, src_call: str, sink_call: str, chain_hook:
         if p.exit_kind != 'return':
             continue
         sym = Sym(p)
-        recvs = [(i, st) for i, st in p.stmts() if any(isinstance(c, ast.Call) and attr_chain(c.func) == src_call for c in walk_no_nested(st))]
+        recvs = [(i, st) for i, st in p.stmts() if any(isinstance(c, ast.Call) and _cname(sym, c, i) == src_call for c in walk_no_nested(st))]
         if not recvs:
             continue
         ri = recvs[0][0]
@@ -433,12 +438,12 @@ def _relay(ch: Checker, fn: FuncInfo, src_call: str, sink_call: str, chain_hook:
                     none_hit = True
         if none_hit:
             # nothing received / a plugin dropped the chunk: nothing may be queued
-            sinks = [c for i, st in p.stmts() for c in walk_no_nested(st) if isinstance(c, ast.Call) and attr_chain(c.func) == sink_call and i > ri]
+            sinks = [c for i, st in p.stmts() for c in walk_no_nested(st) if isinstance(c, ast.Call) and _cname(sym, c, i) == sink_call and i > ri]
             if sinks:
                 bad = ('data is handed on although nothing was received / a plugin dropped it', p.describe(22))
             continue
         n += 1
-        sinks = [(i, c) for i, st in p.stmts() for c in walk_no_nested(st) if isinstance(c, ast.Call) and attr_chain(c.func) == sink_call and i > ri]
+        sinks = [(i, c) for i, st in p.stmts() for c in walk_no_nested(st) if isinstance(c, ast.Call) and _cname(sym, c, i) == sink_call and i > ri]
         if len(sinks) != 1:
             bad = ('received data is handed to %s %d time(s) on a path where data arrived (exactly once expected): bytes are %s'
                    % (sink_call, len(sinks), 'lost' if not sinks else 'duplicated'), p.describe(22))
@@ -472,7 +477,7 @@ def _relay_param(ch: Checker, rule: str, fn: FuncInfo, sink_call: str) -> None:
             continue
         n += 1
         sym = Sym(p)
-        sinks = [(i, c) for i, st in p.stmts() for c in walk_no_nested(st) if isinstance(c, ast.Call) and attr_chain(c.func) == sink_call]
+        sinks = [(i, c) for i, st in p.stmts() for c in walk_no_nested(st) if isinstance(c, ast.Call) and _cname(sym, c, i) == sink_call]
         if len(sinks) != 1 or not sinks[0][1].args or norm(sym.value(sinks[0][1].args[0], sinks[0][0])) != param:
             bad = ('%s does not hand its argument to %s exactly once unchanged' % (fn.qualname, sink_call), p.describe())
     ch.check(bad is None and n > 0, rule, fn, '%s -> %s' % (param, sink_call), 'argument handed on exactly once, unchanged', bad[0] if bad else 'no path', witness=bad[1] if bad else None)
